@@ -103,6 +103,28 @@ type Env struct {
 	steps      int64
 	notes      []Note
 	keepNotes  bool
+	attach     map[string][]byte
+	given      map[string][]byte
+}
+
+// Attach stores a binary artefact (e.g. the corrupted input image) with the
+// run; it is written into the replay file so that the counter-example stands
+// alone even where the library's output bytes are not reproducible (Go map
+// order).  Only kept when notes are kept.
+func (e *Env) Attach(name string, data []byte) {
+	if !e.keepNotes {
+		return
+	}
+	if e.attach == nil {
+		e.attach = map[string][]byte{}
+	}
+	e.attach[name] = append([]byte(nil), data...)
+}
+
+// Given returns an artefact supplied by the replay file.
+func (e *Env) Given(name string) ([]byte, bool) {
+	d, ok := e.given[name]
+	return d, ok
 }
 
 type Note struct {
@@ -162,6 +184,7 @@ type Outcome struct {
 	Steps      int64
 	Notes      []Note
 	Draws      int
+	Attach     map[string][]byte
 }
 
 var currentRun atomic.Int64
@@ -171,7 +194,12 @@ var currentTape atomic.Pointer[[]uint64] // set while a replayed candidate runs 
 
 // RunOne executes p.Run on the tape, converting panics into violations.
 func RunOne(p *Prop, tb *testing.T, tier string, t *tape.Tape, keepNotes bool) (out Outcome) {
-	e := &Env{T: t, TB: tb, Tier: tier, faults: map[string]int{}, probes: map[string]int{}, keepNotes: keepNotes}
+	return RunOneGiven(p, tb, tier, t, keepNotes, nil)
+}
+
+// RunOneGiven is RunOne with artefacts supplied by a replay file.
+func RunOneGiven(p *Prop, tb *testing.T, tier string, t *tape.Tape, keepNotes bool, given map[string][]byte) (out Outcome) {
+	e := &Env{T: t, TB: tb, Tier: tier, faults: map[string]int{}, probes: map[string]int{}, keepNotes: keepNotes, given: given}
 	func() {
 		defer func() {
 			if r := recover(); r != nil {
@@ -183,7 +211,7 @@ func RunOne(p *Prop, tb *testing.T, tier string, t *tape.Tape, keepNotes bool) (
 		p.Run(e)
 	}()
 	out = Outcome{Viol: e.viol, Skip: e.skip, Sig: e.sig, Nontrivial: e.nontrivial, Faults: e.faults,
-		Probes: e.probes, Steps: e.steps, Notes: e.notes, Draws: t.Pos()}
+		Probes: e.probes, Steps: e.steps, Notes: e.notes, Draws: t.Pos(), Attach: e.attach}
 	if t.Over && out.Viol == nil {
 		out.Skip = "tape limit"
 	}
@@ -224,16 +252,17 @@ func trimStack(stack []byte) string {
 // FoundViolation is a violation together with the tape that produces it.
 type FoundViolation struct {
 	Violation
-	Seed       uint64     `json:"seed"`
-	Run        int        `json:"run"`
-	Tape       []uint64   `json:"tape"`
-	Labels     []tape.Rec `json:"labels,omitempty"`
-	Scenario   []Note     `json:"scenario,omitempty"`
-	Shrunk     bool       `json:"shrunk"`
-	Candidates int        `json:"shrink_candidates"`
-	OrigLen    int        `json:"orig_tape_len"`
-	Count      int        `json:"count"` // runs that hit this class
-	Corner     string     `json:"corner,omitempty"`
+	Seed        uint64            `json:"seed"`
+	Run         int               `json:"run"`
+	Tape        []uint64          `json:"tape"`
+	Labels      []tape.Rec        `json:"labels,omitempty"`
+	Scenario    []Note            `json:"scenario,omitempty"`
+	Shrunk      bool              `json:"shrunk"`
+	Candidates  int               `json:"shrink_candidates"`
+	OrigLen     int               `json:"orig_tape_len"`
+	Count       int               `json:"count"` // runs that hit this class
+	Corner      string            `json:"corner,omitempty"`
+	Attachments map[string][]byte `json:"attachments,omitempty"`
 }
 
 // Summary is what a worker writes.
@@ -272,6 +301,7 @@ type WorkerConfig struct {
 	Progress   string // if set, the current run index is written here before each run
 	OnlyRun    int    // >=0: execute exactly this run index
 	MaxClasses int
+	EventLog   string // if set, one line per run (draws, signature, steps, verdict) is written here
 }
 
 // RunSeed derives the seed of run i.
@@ -324,6 +354,12 @@ func Worker(tb *testing.T, cfg WorkerConfig) *Summary {
 		}
 	}
 
+	var evlog *os.File
+	if cfg.EventLog != "" {
+		evlog, _ = os.Create(cfg.EventLog)
+		defer evlog.Close()
+	}
+
 	first, step := cfg.Worker, cfg.Workers
 	if cfg.OnlyRun >= 0 {
 		first, step = cfg.OnlyRun, 1<<30
@@ -355,6 +391,13 @@ func Worker(tb *testing.T, cfg WorkerConfig) *Summary {
 		}
 		if ms > 5000 {
 			sum.SlowRuns++
+		}
+		if evlog != nil {
+			vk := ""
+			if out.Viol != nil {
+				vk = out.Viol.Key()
+			}
+			fmt.Fprintf(evlog, "%d draws=%d sig=%x nontrivial=%v skip=%q steps=%d faults=%v probes=%v viol=%q\n", i, out.Draws, out.Sig, out.Nontrivial, out.Skip, out.Steps, sortedCounts(out.Faults), sortedCounts(out.Probes), vk)
 		}
 		sum.Runs++
 		sum.Steps += out.Steps
@@ -410,6 +453,7 @@ func shrinkViolation(p *Prop, tb *testing.T, cfg WorkerConfig, seed uint64, run 
 		fv.Tape = tp.Values()
 		fv.Labels = tp.Records()
 		fv.Scenario = out.Notes
+		fv.Attachments = out.Attach
 		fv.OrigLen = len(fv.Tape)
 		return fv
 	}
@@ -438,10 +482,12 @@ func shrinkViolation(p *Prop, tb *testing.T, cfg WorkerConfig, seed uint64, run 
 		fv.Labels = rt.Records()
 		fv.Scenario = o.Notes
 		fv.Violation = *o.Viol
+		fv.Attachments = o.Attach
 	} else {
 		fv.Tape = vals
 		fv.Labels = tp.Records()
 		fv.Scenario = out.Notes
+		fv.Attachments = out.Attach
 	}
 	return fv
 }
@@ -491,23 +537,37 @@ func runningLibraryFrame(stacks string) string {
 	return "?"
 }
 
+func sortedCounts(m map[string]int) string {
+	ks := make([]string, 0, len(m))
+	for k := range m {
+		ks = append(ks, k)
+	}
+	sort.Strings(ks)
+	var sb strings.Builder
+	for _, k := range ks {
+		fmt.Fprintf(&sb, "%s=%d;", k, m[k])
+	}
+	return sb.String()
+}
+
 // ReplayFile is the on-disk replay format.
 type ReplayFile struct {
-	Property   string     `json:"property"`
-	Tier       string     `json:"tier"`
-	Seed       uint64     `json:"seed"`
-	Run        int        `json:"run"`
-	Harness    int        `json:"harness_version"`
-	Tape       []uint64   `json:"tape"`
-	Labels     []tape.Rec `json:"labels,omitempty"`
-	Scenario   []Note     `json:"scenario,omitempty"`
-	Violation  Violation  `json:"violation"`
-	Shrunk     bool       `json:"shrunk"`
-	OrigLen    int        `json:"orig_tape_len"`
-	Reproduced string     `json:"reproduced,omitempty"`
-	Corner     string     `json:"corner,omitempty"`    // hand-written scenario instead of a tape
-	FromSeed   bool       `json:"from_seed,omitempty"` // regenerate the tape from Seed (hang/crash reports of seeded runs)
-	Comment    string     `json:"comment,omitempty"`
+	Property    string            `json:"property"`
+	Tier        string            `json:"tier"`
+	Seed        uint64            `json:"seed"`
+	Run         int               `json:"run"`
+	Harness     int               `json:"harness_version"`
+	Tape        []uint64          `json:"tape"`
+	Labels      []tape.Rec        `json:"labels,omitempty"`
+	Scenario    []Note            `json:"scenario,omitempty"`
+	Violation   Violation         `json:"violation"`
+	Shrunk      bool              `json:"shrunk"`
+	OrigLen     int               `json:"orig_tape_len"`
+	Reproduced  string            `json:"reproduced,omitempty"`
+	Corner      string            `json:"corner,omitempty"`      // hand-written scenario instead of a tape
+	FromSeed    bool              `json:"from_seed,omitempty"`   // regenerate the tape from Seed (hang/crash reports of seeded runs)
+	Attachments map[string][]byte `json:"attachments,omitempty"` // binary artefacts (base64), e.g. the corrupted input image
+	Comment     string            `json:"comment,omitempty"`
 }
 
 // ReplayResult is what a replay prints.
@@ -540,7 +600,7 @@ func Replay(tb *testing.T, rf *ReplayFile) *ReplayResult {
 	if rf.FromSeed {
 		tp = tape.New(rf.Seed)
 	}
-	out := RunOne(p, tb, tier, tp, true)
+	out := RunOneGiven(p, tb, tier, tp, true, rf.Attachments)
 	return &ReplayResult{Violation: out.Viol, Skip: out.Skip, Scenario: out.Notes}
 }
 
